@@ -57,7 +57,16 @@ impl Geonum {
     /// # returns
     /// a new geometric number
     pub fn new_from_cartesian(x: f64, y: f64) -> Self {
-        let mag = (x * x + y * y).sqrt();
+        let sum_of_squares = x * x + y * y;
+        // the squares overflow for components above ~1.3e154 and lose their digits below ~1.5e-154:
+        // rescale by the larger component exactly when the sum is not a normal number
+        let scale = x.abs().max(y.abs());
+        let mag = if sum_of_squares.is_normal() || scale == 0.0 || !scale.is_finite() {
+            sum_of_squares.sqrt()
+        } else {
+            let (u, v) = (x / scale, y / scale);
+            scale * (u * u + v * v).sqrt()
+        };
         let angle = Angle::new_from_cartesian(x, y);
 
         Self { mag, angle }
